@@ -823,6 +823,8 @@ class _Inliner:
             head = st.value
         elif isinstance(st, ast.If):
             head = st.test
+        elif isinstance(st, ast.Raise) and st.exc is not None:
+            head = st.exc           # `raise E(h(a)) from e`: the exception is evaluated before the cause
         else:
             return None
         if head is None or (isinstance(head, ast.Call) and not isinstance(st, ast.If) and self._callee(head, caller_cls, caller_self)[0] is not None):
